@@ -3,6 +3,7 @@ package main
 import (
 	"bytes"
 	"fmt"
+	"runtime/debug"
 	"sort"
 	"strings"
 	"time"
@@ -20,6 +21,10 @@ func classify(limit time.Duration, f func() error) string {
 	go func() {
 		defer func() {
 			if rec := recover(); rec != nil {
+				if panicInDemuxer(string(debug.Stack())) {
+					done <- "demuxer-crashed"
+					return
+				}
 				done <- fmt.Sprintf("panic:%v", rec)
 			}
 		}()
@@ -38,6 +43,28 @@ func classify(limit time.Duration, f func() error) string {
 	case <-time.After(limit):
 		return "timeout"
 	}
+}
+
+// panicInDemuxer: did the panic originate inside the third-party transport-stream demultiplexer
+// (go-astits, possibly through go-astikit helpers it calls)? C08 only covers streams the demultiplexer
+// gets through without itself crashing.
+func panicInDemuxer(stack string) bool {
+	lines := strings.Split(stack, "\n")
+	after := false
+	for _, l := range lines {
+		if strings.HasPrefix(l, "panic(") {
+			after = true
+			continue
+		}
+		if !after || strings.HasPrefix(l, "\t") || strings.HasPrefix(l, "runtime.") {
+			continue
+		}
+		if strings.Contains(l, "github.com/asticode/go-astikit") {
+			continue
+		}
+		return strings.Contains(l, "github.com/asticode/go-astits")
+	}
+	return false
 }
 
 func totRead(format string, doc []byte, opt int) string {
